@@ -39,6 +39,9 @@ class State(object):
 
 
 # ----------------------------------------------------------------------------- base model
+DEGENERATE = [True]
+
+
 def base_model(E, sym_reactions=("R1",), sym_coef=True, groups=True):
     m = Model("bk")
     A = Metabolite("A", compartment="c", name="met A", formula="C1H2", charge=0)
@@ -64,6 +67,10 @@ def base_model(E, sym_reactions=("R1",), sym_coef=True, groups=True):
     rs["R1"].notes = {"note": "x"}
     rs["R1"].annotation = {"ec": ["1.1.1.1"]}
     m.add_reactions(list(rs.values()))
+    if DEGENERATE[0]:
+        # degenerate but legal members: a reaction without metabolites, a metabolite that takes part in no reaction
+        m.add_reactions([Reaction("EMPTY", name="rxn EMPTY", lower_bound=0, upper_bound=10)])
+        m.add_metabolites([Metabolite("LONE", compartment="c", name="met LONE")])
     for rid in sym_reactions:
         r = m.reactions.get_by_id(rid)
         lb = E.real("lb_" + rid, -B, B)
